@@ -63,6 +63,17 @@ def rand_valid_sentence(rng, payload=None, fill=None, nf=1, fn=1, mid=None, wild
     return line
 
 
+def varied_sentence(rng, payload, **kw):
+    """ais.sentence with the fields that carry no meaning for the payload drawn at random half of the time:
+    talker (known, unknown, lower case), sentence formatter (VDM, VDO, others), channel, start delimiter."""
+    if rng.random() < 0.5:
+        kw.setdefault("talker", rng.choice(TALKER_LIST + [b"XX", b"ai", b"GP", b"\x00\x7f"]))
+        kw.setdefault("report", rng.choice([b"VDM", b"VDO", b"VDX", b"ABM", b"BBM", b"vdm", b"TXT", b"\xff\xfe\xfd"]))
+        kw.setdefault("channel", rng.choice([b"A", b"B", b"", b"1", b"2", b"C", b"AB"]))
+        kw.setdefault("delim", rng.choice([b"!", b"!", b"$"]))
+    return ais.sentence(payload, **kw)
+
+
 def mutations(rng, line, per=None):
     """Every single-point mutation (delete / replace / insert a byte) of a line, or a sample of `per`."""
     out = []
@@ -114,6 +125,10 @@ def near_misses(rng):
             b"!AIVDM*00", b"!AIVDM,*00", good.replace(b",", b",,", 1), good.replace(b",", b"", 1),
             good.replace(b"AIVDM", b"AIVD"), good.replace(b"AIVDM", b"AIVDMX"), good.replace(b"AIVDM", b"**VDM"),
             good.replace(b"AIVDM", b",,,,,")]
+    # two or more tag blocks in a row (one optional block is the grammar), empty blocks, a block after the sentence start
+    out += [b"\\a\\\\b\\" + good, b"\\g:1-2-7*00\\\\s:x*00\\" + good, b"\\\\\\\\" + good, b"\\a\\\\\\" + good, b"\\a\\\\b\\\\c\\" + good,
+            b"\\a\\ \\b\\" + good, good[:1] + b"\\a\\" + good[1:], b"\\a*7F\\" + good, b"\\s:r1,c:2*5F\\" + good, b"\\s:r1,c:2*00\\" + good,
+            b"\\s:r1,c:2*zz\\" + good, b"\\*\\" + good, b"\\*00\\" + good]
     # payload or channel containing '*' (the checksummed region ends there)
     q = p[:3] + b"*" + p[3:]
     out += [S(q, **base), S(p, channel=b"*", **base), S(p, talker=b"*I", **base)]
@@ -121,7 +136,61 @@ def near_misses(rng):
     out.append(b"!" + b2 + b"*" + (b"%02X" % ais.xor_all(b2)) + b",0*" + (b"%02X" % ais.xor_all(b2)))
     out.append(b"!AIVDM,1,1,,A,1*FF,0*0B")
     out += numeric_extremes(rng, p, f)
+    out += numeric_spellings(rng, p, f)
+    out += padding_variants(rng, p, f)
     out += utf8_lines(rng, 12)
+    return out
+
+
+def numeric_spellings(rng, p=None, f=0):
+    """Spellings of a small number that a lenient number parser would take (sign, blanks, radix prefix, decimal
+    point, exponent, separators, non-ASCII digits, value + 256): in every numeric field, on an unfragmented
+    sentence and on the fragments of a group.  Only plain decimal digits (with any leading zeros) are a number."""
+    if p is None:
+        p, f = gen.valid_message_payload(rng, 1)
+    S = ais.sentence
+
+    def spell(v):
+        d = str(v).encode()
+        return [b"+" + d, b"-" + d, b" " + d, d + b" ", b"\t" + d, b"0x" + d, b"0" + d, b"00" + d, d + b".0", d + b"e0",
+                d + b"_", b"+0" + d, str(v + 256).encode(), str(v + 512).encode(), b"0" + str(v + 256).encode(),
+                "\uff10".encode() + d if v < 10 else d, "\u0660".encode()[:0] + bytes([0xd9, 0xa0 + v % 10]), d + b"\x00"]
+    out = []
+    for txt in spell(1):
+        out += [S(p, fill=f, nf_txt=txt), S(p, fill=f, fn_txt=txt), S(p, fill=f, nf_txt=txt, fn_txt=txt)]
+    for v in (0, 3, 9):
+        for txt in spell(v):
+            out.append(S(p, fill=f, mid_txt=txt))
+            out.append(S(p[:5], nf=2, fn=1, mid_txt=txt, fill=0))
+    for txt in spell(2):
+        out += [S(p[:5], nf=2, fn=1, mid=3, fill=0, nf_txt=txt), S(p[5:9], nf=2, fn=2, mid=3, fill=0, fn_txt=txt),
+                S(p[5:9], nf=2, fn=2, mid=3, fill=0, nf_txt=txt, fn_txt=txt)]
+    for txt in spell(f):
+        out.append(S(p, fill_txt=txt, fill=0))
+    return out
+
+
+def padding_variants(rng, p=None, f=0):
+    """Blanks, tabs, CR, LF, NUL around the structural characters of a valid sentence - before and after the '*', the
+    start delimiter, every comma and the checksum digits - with the checksum of the original region and with the
+    checksum of the region as transmitted.  None of these bytes is ignored by the grammar."""
+    if p is None:
+        p, f = gen.valid_message_payload(rng, 1)
+    out = []
+    for good in (ais.sentence(p, fill=f), ais.sentence(p[:7], nf=2, fn=1, mid=4, fill=0)):
+        star = good.index(b"*")
+        spots = {0, 1, star, star + 1, len(good), good.index(b","), good.index(b",") + 1, good.rindex(b","), good.rindex(b",") + 1, star + 2}
+        for pad in (b" ", b"\t", b"\r", b"\n", b"\x00", b"  ", b"\r\n"):
+            for i in sorted(spots):
+                line = good[:i] + pad + good[i:]
+                out.append(line)
+                st = line.index(b"*")
+                # the same line with the checksum of what is now between the delimiter and the '*'
+                d0 = 0
+                while d0 < len(line) and line[d0:d0 + 1] not in (b"!", b"$"):
+                    d0 += 1
+                if d0 < st:
+                    out.append(line[:st + 1] + b"%02X" % ais.xor_all(line[d0 + 1:st]) + line[st + 3:])
     return out
 
 
@@ -551,16 +620,16 @@ class C19(SentProp):
                     f = gen.base_fields(tt, rng, ais.LAYOUTS[tt])
                     bs = gen.full_payload(tt, f) + gen.tail_for(tt, rng)
                     payload, fill = ais.armor(ais.bytes_to_bits(bs))
-                    ops += ["N 0", L(ais.sentence(payload, fill=0), 0, 1)]
+                    ops += ["N 0", L(varied_sentence(rng, payload, fill=0), 0, 1)]
                 else:
                     payload = bytes([b]) + gen.random_alphabet(rng, rng.choice([0, 3, 27]))
                     if shape % 3 == 1:
-                        ops += ["N 0", L(ais.sentence(payload, nf=2, fn=1, mid=4), 0, 0)]
+                        ops += ["N 0", L(varied_sentence(rng, payload, nf=2, fn=1, mid=4), 0, 0)]
                     elif shape % 3 == 2:
-                        ops += ["N 0", L(ais.sentence(b"1234", nf=2, fn=1, mid=4), 0, 0),
-                                L(ais.sentence(payload, nf=2, fn=2, mid=4), 0, 0)]
+                        ops += ["N 0", L(varied_sentence(rng, b"1234", nf=2, fn=1, mid=4), 0, 0),
+                                L(varied_sentence(rng, payload, nf=2, fn=2, mid=4), 0, 0)]
                     else:
-                        ops += ["N 0", L(ais.sentence(payload), 0, 0)]
+                        ops += ["N 0", L(varied_sentence(rng, payload), 0, 0)]
         yield ("first-char", ops)
         # payloads of 0..4 characters: still one first character (or none: then the line is not accepted)
         ops = []
@@ -568,9 +637,9 @@ class C19(SentProp):
             for _ in range(6):
                 payload = gen.random_alphabet(rng, n)
                 for (nf, fn, mid) in ((1, 1, None), (2, 1, 7), (3, 2, 7)):
-                    ops += ["N 0", L(ais.sentence(payload, nf=nf, fn=fn, mid=mid, fill=0), 0, rng.randrange(2))]
-                ops += ["N 0", L(ais.sentence(payload, nf=2, fn=1, mid=7, fill=0), 0, 1),
-                        L(ais.sentence(b"?03Owo@nwsI0D00", nf=2, fn=2, mid=7, fill=2), 0, 1)]
+                    ops += ["N 0", L(varied_sentence(rng, payload, nf=nf, fn=fn, mid=mid, fill=0), 0, rng.randrange(2))]
+                ops += ["N 0", L(varied_sentence(rng, payload, nf=2, fn=1, mid=7, fill=0), 0, 1),
+                        L(varied_sentence(rng, b"?03Owo@nwsI0D00", nf=2, fn=2, mid=7, fill=2), 0, 1)]
         yield ("short-payloads", ops)
         # the type of a sentence must not depend on what the parser saw before: abandoned groups,
         # delivered groups, middle fragments, tag blocks
@@ -592,22 +661,22 @@ class C19(SentProp):
                     pl, fl = ais.armor(ais.bytes_to_bits(bs))
                     k = rng.randrange(1, len(pl))
                     mid = rng.choice([None, 1, 2])
-                    ops.append(L(ais.sentence(pl[:k], nf=2, fn=1, mid=mid, fill=0), 0, dec))
-                    ops.append(L(ais.sentence(pl[k:], nf=2, fn=2, mid=mid, fill=fl), 0, dec))
+                    ops.append(L(varied_sentence(rng, pl[:k], nf=2, fn=1, mid=mid, fill=0), 0, dec))
+                    ops.append(L(varied_sentence(rng, pl[k:], nf=2, fn=2, mid=mid, fill=fl), 0, dec))
                 elif shape == 0:
-                    ops.append(L(ais.sentence(payload, tagblock=tb), 0, 0))
+                    ops.append(L(varied_sentence(rng, payload, tagblock=tb), 0, 0))
                 elif shape == 1:
-                    ops.append(L(ais.sentence(payload, nf=2, fn=1, mid=rng.choice([None, 1, 2]), tagblock=tb), 0, 0))
+                    ops.append(L(varied_sentence(rng, payload, nf=2, fn=1, mid=rng.choice([None, 1, 2]), tagblock=tb), 0, 0))
                 elif shape == 2:
-                    ops.append(L(ais.sentence(payload, nf=3, fn=2, mid=rng.choice([None, 1, 2])), 0, 0))
+                    ops.append(L(varied_sentence(rng, payload, nf=3, fn=2, mid=rng.choice([None, 1, 2])), 0, 0))
                 elif shape == 3:
                     mid = rng.choice([None, 1])
-                    ops.append(L(ais.sentence(b"5" + gen.random_alphabet(rng, 3), nf=3, fn=1, mid=mid), 0, 0))
-                    ops.append(L(ais.sentence(payload, nf=3, fn=2, mid=mid), 0, 0))
+                    ops.append(L(varied_sentence(rng, b"5" + gen.random_alphabet(rng, 3), nf=3, fn=1, mid=mid), 0, 0))
+                    ops.append(L(varied_sentence(rng, payload, nf=3, fn=2, mid=mid), 0, 0))
                 else:
                     mid = rng.choice([None, 1])
-                    ops.append(L(ais.sentence(b"8" + gen.random_alphabet(rng, 3), nf=2, fn=1, mid=mid), 0, 0))
-                    ops.append(L(ais.sentence(payload, nf=2, fn=2, mid=mid), 0, 0))
+                    ops.append(L(varied_sentence(rng, b"8" + gen.random_alphabet(rng, 3), nf=2, fn=1, mid=mid), 0, 0))
+                    ops.append(L(varied_sentence(rng, payload, nf=2, fn=2, mid=mid), 0, 0))
         yield ("histories", ops)
 
     def judge(self, rep, cfg, label, ops, impl, model):
